@@ -83,8 +83,14 @@ def h5_tokens(text, state, last, cdata, chunk=None):
     if last is not None:
         tok.currentToken = {"type": tt["StartTag"], "name": last, "data": [], "selfClosing": False}
     out = []
+    emitted, cap = 0, 6 * len(text) + 64
     for t in tok:
         ty = names[t["type"]]
+        emitted += 1
+        if emitted > cap:
+            # no state emits more than a few tokens per input character: the machine is not consuming input any more
+            out.append(("tokenizer-does-not-stop", emitted))
+            break
         if ty == "ParseError":
             continue
         if ty in ("Characters", "SpaceCharacters"):
